@@ -15,6 +15,12 @@ open Gen Model RealInst
 
 namespace Bisection
 
+/-- equivalent ways of writing a midpoint, normalised to `(a + b) / 2` (robustness to how the source spells it) -/
+theorem half_mul (x : ℝ) : (0.5 : ℝ) * x = x / 2 := by norm_num; ring
+theorem mul_half (x : ℝ) : x * (0.5 : ℝ) = x / 2 := by norm_num; ring
+theorem add_half_sub (a b : ℝ) : a + (b - a) / 2 = (a + b) / 2 := by ring
+
+
 /-! ### `whileFuel` -/
 section whileFuel
 variable {σ : Type} (cond : σ → Bool) (body : σ → σ)
@@ -146,7 +152,7 @@ theorem bisBody_inv (s : ℝ × ℝ × Int) (h : s.1 ≤ r ∧ r ≤ s.2.1) :
   obtain ⟨lo, hi, it⟩ := s
   obtain ⟨h1, h2⟩ := h
   simp only at h1 h2
-  simp only [bisBody, sign_beq_one, sign_beq_zero, f_pos_iff f hf r hr, f_zero_iff f hf r hr]
+  simp only [bisBody, half_mul, mul_half, add_half_sub, sign_beq_one, sign_beq_zero, f_pos_iff f hf r hr, f_zero_iff f hf r hr]
   set m := (lo + hi) / 2 with hm
   rcases lt_trichotomy r m with hlt | heq | hgt
   · have : ¬ m = r := hlt.ne'
@@ -204,7 +210,7 @@ theorem bis_result (tol : ℝ) (max_iter : Int) (hmi : 0 ≤ max_iter) (lo hi : 
   simp only at hb hit0 hmax hw
   have hitle : it ≤ max_iter := by rw [max_eq_right hmi] at hmax; exact hmax
   have hdist : |bisExit lo' hi' - r| ≤ (hi' - lo') / 2 := by
-    unfold bisExit; rw [abs_le]; constructor <;> linarith [hb.1, hb.2]
+    simp only [bisExit, half_mul, mul_half, add_half_sub]; rw [abs_le]; constructor <;> linarith [hb.1, hb.2]
   have hcases : hi' - lo' ≤ 2 * tol ∨ it = max_iter := by
     by_contra hcon
     push Not at hcon
@@ -525,7 +531,7 @@ theorem search_main {lower upper : ℝ} (h : lower < upper) (tol : ℝ) (max_ite
   refine ⟨bisExit lo' hi', ai, it, lo, hi, ?_, ea, b1, b2, a0, a1, i0, i1, hw, hres, ?_⟩
   · unfold bisectionSearch; rw [ea]; simp only [bisInit]; rw [eb]
   · have hdist : |bisExit lo' hi' - r| ≤ (hi' - lo') / 2 := by
-      unfold bisExit; rw [abs_le]; constructor <;> linarith
+      simp only [bisExit, half_mul, mul_half, add_half_sub]; rw [abs_le]; constructor <;> linarith
     refine le_trans hdist ?_
     rw [pow_succ, div_le_iff₀ (by norm_num : (0 : ℝ) < 2)]
     calc hi' - lo' ≤ (hi - lo) / 2 ^ it.toNat := hw'
@@ -577,7 +583,7 @@ theorem search_root_on_end {lower upper : ℝ} (h : lower < upper) (hend : lower
   unfold bisectionSearch
   rw [hno]; simp only [bisInit]
   rw [bisectLoop_collapsed f r tol htol]
-  simp [bisExit]
+  simp [bisExit, half_mul, mul_half, add_half_sub]
 
 end root
 
